@@ -82,6 +82,13 @@ Readback(z, run) ==
   ELSE IF ~IsNumRes(run.z2) THEN "literal-not-a-number"
   ELSE IF ~WfNum(run.z2) THEN "malformed-record"
   ELSE IF ~SameNumber(run.z1, run.z2) THEN "literal-differs-from-string->number"
+  \* the printed form of z (result display / write), read as program text, is z again
+  ELSE IF "z3" \notin DOMAIN run THEN ""
+  ELSE IF Crash(run.z3) THEN "printed-form-panic"
+  ELSE IF ~IsNumRes(run.z3) THEN "printed-form-not-a-number"
+  ELSE IF ~WfNum(run.z3) THEN "malformed-record"
+  ELSE IF run.z3.k # z.k THEN "printed-form-exactness-differs"
+  ELSE IF ~SameNumber(z, run.z3) THEN "printed-form-reads-back-differently"
   ELSE ""
 
 \* the spelling denotes z, judged without the implementation's reader
